@@ -53,6 +53,11 @@ def run(ck):
             jid += 1
             jobs.append({"id": jid, "tree": tree, "op": {"k": "mkdir_all", "path": H(p), "mode": mode}, "snap": "all",
                          "post_raw": {"path": H(p or "."), "flags": O["PATH"], "resolve": RES}, "meta": {"path": p}})
+    # a Root configured with ResolverFlags::NO_SYMLINKS: the in-root resolution of the path is then the one that refuses every link
+    for p in PATHS:
+        jid += 1
+        jobs.append({"id": jid, "tree": tree, "rflags": 4, "op": {"k": "mkdir_all", "path": H(p), "mode": rng.choice(MODES[:3])}, "snap": "all",
+                     "post_raw": {"path": H(p or "."), "flags": O["PATH"], "resolve": RES | 4}, "meta": {"path": p}})
     for _ in range(40 if thorough else 6):
         t2, meta = gen.gen_tree(rng)
         for _ in range(5):
@@ -93,7 +98,7 @@ def run(ck):
                 continue
             added, removed, changed, after, before = diff(res.get("snap_before"), res.get("snap_after"))
             desc = {"job": J.describe({"op": op}) if op["k"] != "concurrent" else {"k": "concurrent mkdir_all", "paths": job["meta"]["paths"]},
-                    "resolver": "emulated" if deny else "openat2", "outcome": r, "added": [a.decode("latin1") for a in added],
+                    "resolver_flags": "NO_SYMLINKS" if job.get("rflags") else "none", "resolver": "emulated" if deny else "openat2", "outcome": r, "added": [a.decode("latin1") for a in added],
                     "removed": [a.decode("latin1") for a in removed], "changed": [a.decode("latin1") for a in changed]}
             if op["k"] == "concurrent":
                 stats["races"] += 1
@@ -168,14 +173,14 @@ def run(ck):
                     if got != want:
                         ck.violation("C12: a created directory has mode %o, expected %o (requested %o, umask %o)" % (got, want, mode, umask), desc)
                         break
-                nontrivial.add((op["path"], len(added), tag))
+                nontrivial.add((op["path"], len(added), tag, job.get("rflags", 0)))
                 if len(samples) < 4 and len(added) >= 2:
                     samples.append(desc)
             else:
                 stats["failed"] += 1
             if rng.random() < (0.5 if thorough else 0.3) and res.get("trace"):
                 cfg = warm_config(res["_warm"])
-                prog, enc = M.op_program({"op": op}, res, cfg, ps)
+                prog, enc = M.op_program({"op": op, "rflags": job.get("rflags", 0)}, res, cfg, ps)
                 if prog:
                     cases.append((len(cases), f"enc_replay_diag {enc} (run_trace ({prog}) {trace_to_coq(res['trace'])} 0)", job, res, tag))
     if fh_cases:
